@@ -13,17 +13,18 @@ import (
 func constantString(s string) constant.Value { return constant.MakeString(s) }
 
 type redirSpec struct {
-	Fn       string
-	Inline   []string
-	Endpoint string
-	SignWhen []string
+	Fn        string // exported entry point (sp, relayState, doc): the binding is a constant of the call, helpers are inlined
+	Inline    []string
+	Endpoint  string
+	SignWhen  []string // atoms that must all hold for signing to apply
+	NeverSign bool     // entry point of the POST-binding URL flavour: signature parameters never apply
+	MinSigned int
 }
 
-const redirectBinding = `"urn:oasis:names:tc:SAML:2.0:bindings:HTTP-Redirect"`
-
 var redirSpecs = []redirSpec{
-	{"(*SAMLServiceProvider).buildAuthURLFromDocument", []string{"*", "-(*SAMLServiceProvider).SigningContext"}, "SP.IdentityProviderSSOURL", []string{"SP.SignAuthnRequests", "$binding == " + redirectBinding}},
-	{"(*SAMLServiceProvider).buildLogoutURLFromDocument", []string{"*", "-(*SAMLServiceProvider).SigningContext"}, "SP.IdentityProviderSLOURL", []string{"$binding == " + redirectBinding}},
+	{"(*SAMLServiceProvider).BuildAuthURLRedirect", []string{"*", "-(*SAMLServiceProvider).SigningContext"}, "SP.IdentityProviderSSOURL", []string{"SP.SignAuthnRequests"}, false, 2},
+	{"(*SAMLServiceProvider).BuildAuthURLFromDocument", []string{"*", "-(*SAMLServiceProvider).SigningContext"}, "SP.IdentityProviderSSOURL", nil, true, 0},
+	{"(*SAMLServiceProvider).BuildLogoutURLRedirect", []string{"*", "-(*SAMLServiceProvider).SigningContext"}, "SP.IdentityProviderSLOURL", nil, false, 2},
 }
 
 func findCall(t *Terminal, short string) []*Event {
@@ -49,6 +50,12 @@ func ruleC14(c *Ctx) {
 		}
 		fname := shortFn(res.Root)
 		nAcc, nSigned := 0, 0
+		if len(res.Root.Params) != 3 {
+			c.bad("anchor", fname, "UNRESOLVED-ANCHOR", "-", "expected (sp, relayState, doc) parameters")
+			continue
+		}
+		relayP := "$" + res.Root.Params[1].Name()
+		docP := "$" + res.Root.Params[2].Name()
 		for _, t := range res.Terms {
 			if !t.accepting(res.Root) {
 				continue
@@ -56,12 +63,12 @@ func ruleC14(c *Ctx) {
 			nAcc++
 			atoms := t.atoms()
 			pos := c.P.InstrPos(t.Instr)
-			relay := atoms[`!($relayState == "")`]
-			if !relay && !atoms[`$relayState == ""`] {
+			relay := atoms[`!(`+relayP+` == "")`]
+			if !relay && !atoms[relayP+` == ""`] {
 				c.bad("C14-R3", fname, "RelayState decided by relayState != \"\"", pos, "path does not test relayState")
 				continue
 			}
-			signNow := true
+			signNow := !rs.NeverSign
 			for _, w := range rs.SignWhen {
 				if !atoms[w] {
 					signNow = false
@@ -86,7 +93,7 @@ func ruleC14(c *Ctx) {
 			fw := nws[0].Res[0]
 			wrs := findCall(t, "(*compress/flate.Writer).Write")
 			cls := findCall(t, "(*compress/flate.Writer).Close")
-			docStr := "(*etree.Document).WriteToString($doc)#0"
+			docStr := "(*etree.Document).WriteToString(" + docP + ")#0"
 			okW := len(wrs) == 1 && wrs[0].Args[0].Key() == fw.Key() && (ap(wrs[0].Args[1]) == "[]byte("+docStr+")" || ap(wrs[0].Args[1]) == docStr)
 			c.check(okW && bufFresh, "C14-R5", fname, "exactly the document is deflated into a fresh buffer ["+label+"]", pos, "Write([]byte(doc))", "deflate input is not exactly the serialised document")
 			okC := false
@@ -136,7 +143,7 @@ func ruleC14(c *Ctx) {
 			}
 			if relay {
 				a := adds["RelayState"]
-				c.check(a != nil && ap(a.Args[2]) == "$relayState", "C14-R3", fname, "RelayState added with the given value ["+label+"]", pos, "$relayState", "RelayState parameter missing or altered on the non-empty path")
+				c.check(a != nil && ap(a.Args[2]) == relayP, "C14-R3", fname, "RelayState added with the given value ["+label+"]", pos, relayP, "RelayState parameter missing or altered on the non-empty path")
 			} else {
 				c.check(adds["RelayState"] == nil, "C14-R3", fname, "RelayState omitted when empty ["+label+"]", pos, "absent", "RelayState parameter added although the relay state is empty")
 			}
@@ -199,9 +206,9 @@ func ruleC14(c *Ctx) {
 			checkSigningString(c, t, fname, label, sg, qs, sent, relay)
 		}
 		c.count("C14/accepting "+fname, nAcc)
-		c.floor("C14/accepting "+fname, 3)
+		c.floor("C14/accepting "+fname, 2)
 		c.count("C14/signed "+fname, nSigned)
-		c.floor("C14/signed "+fname, 2)
+		c.floor("C14/signed "+fname, rs.MinSigned)
 	}
 }
 
@@ -242,12 +249,12 @@ func checkSigningString(c *Ctx, t *Terminal, fname, label string, sg *Event, qs 
 			continue
 		}
 		lc, ok := b.Y.(*CallV)
-		if !ok || shortName(lc.Callee) != "(*bytes.Buffer).Len" {
+		if !ok || (shortName(lc.Callee) != "(*bytes.Buffer).Len" && shortName(lc.Callee) != "(*strings.Builder).Len") {
 			continue
 		}
 		written := false
 		for _, e := range t.St.events {
-			if e.Kind == EvCall && e.Seq < f.Seq && len(e.Args) > 0 && e.Args[0].Key() == lc.Args[0].Key() && strings.HasPrefix(shortName(e.Callee), "(*bytes.Buffer).Write") {
+			if e.Kind == EvCall && e.Seq < f.Seq && len(e.Args) > 0 && e.Args[0].Key() == lc.Args[0].Key() && (strings.HasPrefix(shortName(e.Callee), "(*bytes.Buffer).Write") || strings.HasPrefix(shortName(e.Callee), "(*strings.Builder).Write")) {
 				written = true
 			}
 		}
@@ -256,44 +263,77 @@ func checkSigningString(c *Ctx, t *Terminal, fname, label string, sg *Event, qs 
 			return
 		}
 	}
-	var flatten func(v Val) []Val
-	flatten = func(v Val) []Val {
+	// ---- tokens of the signed string: constant text and escaper calls, whatever wrote them
+	isWriter := func(n, m string) bool {
+		return n == "(*bytes.Buffer)."+m || n == "(*strings.Builder)."+m
+	}
+	var flatten func(v Val) ([]Val, string)
+	flatten = func(v Val) ([]Val, string) {
 		if b, ok := v.(*BinV); ok && b.Op == token.ADD {
-			return append(flatten(b.X), flatten(b.Y)...)
-		}
-		return []Val{v}
-	}
-	// tokens of the signed string
-	var toks []Val
-	s := sg.Args[1]
-	if cv, ok := s.(*CallV); ok && shortName(cv.Callee) == "(*bytes.Buffer).String" {
-		sb := cv.Args[0]
-		for _, e := range t.St.events {
-			if e.Kind != EvCall || len(e.Args) == 0 || e.Args[0].Key() != sb.Key() || e.Seq > sg.Seq {
-				continue
+			x, w := flatten(b.X)
+			if w != "" {
+				return nil, w
 			}
-			switch shortName(e.Callee) {
-			case "(*bytes.Buffer).WriteString":
-				toks = append(toks, flatten(e.Args[1])...)
-			case "(*bytes.Buffer).WriteByte", "(*bytes.Buffer).WriteRune":
-				if k, ok := constInt(e.Args[1]); ok && k > 0 && k < 128 {
-					toks = append(toks, constOf(constantString(string(rune(k))), types.Typ[types.String]))
-				} else {
-					toks = append(toks, e.Args[1])
+			y, w := flatten(b.Y)
+			return append(x, y...), w
+		}
+		if cv, ok := v.(*CallV); ok {
+			switch sn := shortName(cv.Callee); {
+			case isWriter(sn, "String"):
+				sb := cv.Args[0]
+				var out []Val
+				for _, e := range t.St.events {
+					if e.Kind != EvCall || len(e.Args) == 0 || e.Args[0].Key() != sb.Key() || e.Seq > sg.Seq {
+						continue
+					}
+					en := shortName(e.Callee)
+					switch {
+					case isWriter(en, "WriteString"):
+						x, w := flatten(e.Args[1])
+						if w != "" {
+							return nil, w
+						}
+						out = append(out, x...)
+					case isWriter(en, "WriteByte"), isWriter(en, "WriteRune"):
+						if k, ok := constInt(e.Args[1]); ok && k > 0 && k < 128 {
+							out = append(out, constOf(constantString(string(rune(k))), types.Typ[types.String]))
+						} else {
+							out = append(out, e.Args[1])
+						}
+					case isWriter(en, "Len"), isWriter(en, "String"), isWriter(en, "Grow"):
+					default:
+						return nil, "unexpected writer to the signing string buffer: " + en
+					}
 				}
-			case "(*bytes.Buffer).Len", "(*bytes.Buffer).String":
-			default:
-				c.bad("C14-R1", fname, "signing buffer writer "+shortName(e.Callee)+" ["+label+"]", c.P.InstrPos(e.Instr), "unexpected writer to the signing string buffer")
-				return
+				return out, ""
+			case sn == "strings.Join" && len(cv.Args) == 2:
+				sep, ok := constString(cv.Args[1])
+				if !ok {
+					return nil, "strings.Join with a non-constant separator"
+				}
+				elems, ok := sliceElems(t, cv.Args[0])
+				if !ok {
+					return nil, "strings.Join over a list the analysis cannot enumerate: " + ap(cv.Args[0])
+				}
+				var out []Val
+				for i, e := range elems {
+					if i > 0 {
+						out = append(out, constOf(constantString(sep), types.Typ[types.String]))
+					}
+					x, w := flatten(e)
+					if w != "" {
+						return nil, w
+					}
+					out = append(out, x...)
+				}
+				return out, ""
 			}
 		}
-	} else {
-		toks = flatten(s)
+		return []Val{v}, ""
 	}
-	// merge adjacent constant strings and split them at '&' / '='
+	toks, w := flatten(sg.Args[1])
 	type pair struct{ k, v, esc string }
 	var pairs []pair
-	i := 0
 	bad := func(why string) {
 		var ts []string
 		for _, x := range toks {
@@ -301,42 +341,47 @@ func checkSigningString(c *Ctx, t *Terminal, fname, label string, sg *Event, qs 
 		}
 		c.undecided("C14-R1", fname, "signing string shape ["+label+"]", pos, why+"; tokens: "+strings.Join(ts, " "))
 	}
-	constTok := func(j int) (string, bool) {
-		if j >= len(toks) {
-			return "", false
-		}
-		return constString(toks[j])
+	if w != "" {
+		c.bad("C14-R1", fname, "signing string assembly ["+label+"]", pos, w)
+		return
 	}
-	for i < len(toks) {
-		if len(pairs) > 0 {
-			if sep, ok := constTok(i); !ok || sep != "&" {
-				bad("pairs are not joined by a literal '&'")
+	// linearise: literal text with one placeholder per escaper call, then parse pair ('&' pair)*
+	const ph = "\x00"
+	var text strings.Builder
+	var calls []*CallV
+	for _, x := range toks {
+		if s, ok := constString(x); ok {
+			if strings.Contains(s, ph) {
+				bad("NUL in constant text")
 				return
 			}
-			i++
+			text.WriteString(s)
+			continue
 		}
-		if i >= len(toks) {
-			bad("dangling separator")
+		cv, ok := x.(*CallV)
+		if !ok || (shortName(cv.Callee) != "net/url.QueryEscape" && shortName(cv.Callee) != "(net/url.Values).Encode") {
+			bad("unexpected fragment " + ap(x) + " (only constant text, url.QueryEscape and url.Values.Encode outputs may enter the signed string)")
 			return
 		}
-		switch x := toks[i].(type) {
-		case *CallV:
-			switch shortName(x.Callee) {
-			case "net/url.QueryEscape":
-				k, ok := constString(x.Args[0])
-				eq, ok2 := constTok(i + 1)
-				var vq *CallV
-				if i+2 < len(toks) {
-					vq, _ = toks[i+2].(*CallV)
-				}
-				if !ok || !ok2 || eq != "=" || vq == nil || shortName(vq.Callee) != "net/url.QueryEscape" {
-					bad("expected QueryEscape(key) \"=\" QueryEscape(value)")
-					return
-				}
-				pairs = append(pairs, pair{k, ap(vq.Args[0]), "QueryEscape"})
-				i += 3
-			case "(net/url.Values).Encode":
-				u := x.Args[0]
+		text.WriteString(ph)
+		calls = append(calls, cv)
+	}
+	ci := 0
+	next := func() *CallV { cv := calls[ci]; ci++; return cv }
+	escapeInvariant := func(s string) bool {
+		for i := 0; i < len(s); i++ {
+			ch := s[i]
+			if !(ch >= 'a' && ch <= 'z' || ch >= 'A' && ch <= 'Z' || ch >= '0' && ch <= '9' || ch == '-' || ch == '_' || ch == '.' || ch == '~') {
+				return false
+			}
+		}
+		return s != ""
+	}
+	for _, seg := range strings.Split(text.String(), "&") {
+		if seg == ph {
+			cv := next()
+			if shortName(cv.Callee) == "(net/url.Values).Encode" {
+				u := cv.Args[0]
 				var adds []*Event
 				for _, e := range t.St.events {
 					if e.Kind == EvCall && shortName(e.Callee) == "(net/url.Values).Add" && e.Args[0].Key() == u.Key() && e.Seq < sg.Seq {
@@ -354,15 +399,43 @@ func checkSigningString(c *Ctx, t *Terminal, fname, label string, sg *Event, qs 
 					return
 				}
 				pairs = append(pairs, pair{k, ap(adds[0].Args[2]), "Values.Encode"})
-				i++
-			default:
-				bad("unexpected fragment " + ap(x))
-				return
+				continue
 			}
-		default:
-			bad("unexpected fragment " + ap(toks[i]))
+			bad("a pair without '='")
 			return
 		}
+		eq := strings.Index(seg, "=")
+		if eq < 0 {
+			bad("a pair without '=' (" + strings.ReplaceAll(seg, ph, "<escaped>") + ")")
+			return
+		}
+		kpart, vpart := seg[:eq], seg[eq+1:]
+		key := ""
+		switch {
+		case kpart == ph:
+			cv := next()
+			k, ok := constString(cv.Args[0])
+			if shortName(cv.Callee) != "net/url.QueryEscape" || !ok {
+				bad("key is not QueryEscape of a constant")
+				return
+			}
+			key = k
+		case !strings.Contains(kpart, ph) && escapeInvariant(kpart):
+			key = kpart // a literal key made of unreserved characters is its own escaped form
+		default:
+			bad("key part " + strings.ReplaceAll(kpart, ph, "<escaped>") + " is neither QueryEscape(constant) nor an escape-invariant literal")
+			return
+		}
+		if vpart != ph {
+			bad("value of " + key + " is not exactly one QueryEscape output")
+			return
+		}
+		vq := next()
+		if shortName(vq.Callee) != "net/url.QueryEscape" {
+			bad("value of " + key + " is escaped by " + shortName(vq.Callee))
+			return
+		}
+		pairs = append(pairs, pair{key, ap(vq.Args[0]), "QueryEscape"})
 	}
 	var keys []string
 	hasRelay := false
@@ -392,4 +465,51 @@ func checkSigningString(c *Ctx, t *Terminal, fname, label string, sg *Event, qs 
 		esc[p.esc] = true
 	}
 	c.ok("C14-R1", fname, "signing string = escaped key=value pairs joined by '&' ["+label+"]", pos, fmt.Sprintf("%d pairs via %v", len(pairs), sortedStrings(esc)))
+}
+
+// sliceElems enumerates the elements of a []string value assembled from slice literals and appends.
+func sliceElems(t *Terminal, v Val) ([]Val, bool) {
+	switch x := v.(type) {
+	case *ConstV:
+		if isNilConst(x) {
+			return nil, true
+		}
+	case *AllocV:
+		if isEmptySliceValT(t, x) {
+			return nil, true
+		}
+	case *AppendV:
+		base, ok := sliceElems(t, x.S)
+		if !ok {
+			return nil, false
+		}
+		if x.Spread {
+			for _, e := range x.Elems {
+				more, ok := sliceElems(t, e)
+				if !ok {
+					return nil, false
+				}
+				base = append(base, more...)
+			}
+			return base, true
+		}
+		return append(base, x.Elems...), true
+	case *SliceV:
+		if a, ok := x.X.(*AllocV); ok && x.Lo == nil && x.Hi == nil {
+			if p, ok := a.Type().Underlying().(*types.Pointer); ok {
+				if arr, ok := p.Elem().Underlying().(*types.Array); ok && arr.Len() <= 32 {
+					out := make([]Val, arr.Len())
+					for i := range out {
+						cl, ok := t.St.heap[mkIndexAddr(a, intV(int64(i)), nil).Key()]
+						if !ok {
+							return nil, false
+						}
+						out[i] = cl.val
+					}
+					return out, true
+				}
+			}
+		}
+	}
+	return nil, false
 }
